@@ -187,3 +187,20 @@ Lemma sd_after : srv_trace (srv_run ex_cfg' sd_evs) =
   [ODispatch 3 (ex_req []); OHeaders 3 true [137]; ORelease 3 true; OGoAway 3 c_StreamClosedError;
    ORst 1 c_ProtocolError; ORelease 1 true; OExit 1 0].
 Proof. vm_compute. reflexivity. Qed.
+
+(* C01_assembled_request on the three fragments of stream 1's block in m_evs and its DATA frames *)
+From H2V Require Import Proofs.SrvIsoOwn Proofs.SrvIsoLog.
+Definition a_f1 : sframe := pfr KHeaders 0 1 9 (firstn 4 m_b1) 0.
+Definition a_f2 : sframe := xfr KCont 0 1 (firstn 3 (skipn 4 m_b1)).
+Definition a_f3 : sframe := xfr KCont 4 1 (skipn 7 m_b1).
+Definition a_frs : list (sframe * list (bytes * bytes) * bytes) :=
+  [(a_f1, [(S_method, [80;79;83;84]); (S_path, [47]); (S_scheme, [104;116;116;112;115])], [92]);
+   (a_f2, [(S_content_length, [53])], [64]);
+   (a_f3, [([120],[121])], [])].
+Definition a_ds : list sframe := [pfr KData 0 1 7 [104;101] 0; xfr KData 0 1 []; xfr KData 1 1 [108;108;111]].
+Lemma a_block : block_items true a_frs.
+Proof. repeat split. Qed.
+Lemma a_accepted : exists hF, hfold m_cfg hdr0 (fields_of a_frs) = Some hF.
+Proof. eexists. vm_compute. reflexivity. Qed.
+Lemma a_request : hd_req (fst (asm m_cfg (items_of a_frs ++ map LD a_ds))) = m_rq1.
+Proof. vm_compute. reflexivity. Qed.
